@@ -256,7 +256,12 @@ func runC13(e *core.Env) {
 	case 2:
 		if !docker {
 			shape = "image+referrer"
+			if e.Choose("gen", 2, "refInlineConfig") == 1 {
+				g.ArtifactInlineConfig = true
+				e.Probe("referrer-with-inline-config-data")
+			}
 			arts = append(arts, g.Artifact(img1, "application/vnd.example.sbom"))
+			g.ArtifactInlineConfig = false
 		}
 	case 3:
 		if !docker {
